@@ -9,7 +9,7 @@ from ..cfg import NORMAL, Node
 from ..core import Ctx
 from ..flow import ALL, find_path, names_in
 from ..model import AnalysisError, FunctionInfo, dotted, norm_text
-from .common import (edge_target, fold_str, hint_value, hint_write_nodes, hint_writers, kwarg, path_arg,
+from .common import (owner_tops, edge_target, fold_str, hint_value, hint_write_nodes, hint_writers, kwarg, path_arg,
                      reachable_from)
 
 EXPLANATION = (
@@ -32,6 +32,14 @@ def check(ctx: Ctx) -> None:
     r3(ctx, "C03.R3")
     from .c05 import r3 as c05_r3
     c05_r3(ctx, "C03.R4")
+    r5(ctx)
+
+
+def r5(ctx: Ctx) -> None:
+    ctx.rule("C03.R5", "a writer that died while holding the S3 lock does not wedge the table: the conditional-write provider's "
+             "acquire attempt returns the result of the expired-lock takeover", 1)
+    from .c19 import takeover_is_acquire
+    takeover_is_acquire(ctx, "C03.R5")
 
 
 # --------------------------------------------------------------------- census
@@ -102,7 +110,9 @@ def r1(ctx: Ctx, rid: str) -> None:
     ctx.rule(rid, "atomic publish: every write-capable sink lies in a sanctioned owner; the two local publishers create "
              "the temp file in dirname(final), and rename exactly that temp onto the resolved final path", 14)
     for f, n, what in write_sinks(ctx):
-        reason = SINK_OWNERS.get(top_of(f).qname)
+        owners = owner_tops(ctx, f)
+        reasons = [SINK_OWNERS.get(o.qname) for o in owners]
+        reason = reasons[0] if owners and all(r is not None for r in reasons) else None
         ctx.ob(rid, f, f"{what} site", n, reason is not None,
                (f"sanctioned: {reason}" if reason else
                 "a file-creating / overwriting call outside the atomic publishers: a crash can expose a partial file"),
@@ -183,13 +193,13 @@ def r2(ctx: Ctx, rid: str) -> None:
     ctx.rule(rid, "one commit point, and it is last: the version hint is written by exactly two functions; in each the "
              "metadata-file write dominates the pointer write; manifests -> manifest list -> snapshot commit is "
              "the only order in _commit_file_ops", 6)
-    writers = {w.qname for w in hint_writers(ctx)}
+    writers = {o.qname for w in hint_writers(ctx) for o in (owner_tops(ctx, w) or [w])}
     expected = {"datashard.metadata_manager.MetadataManager.initialize_table",
                 "datashard.metadata_manager.MetadataManager._write_hint_at_commit_point"}
     ctx.ob(rid, None, "hint writer census", None, writers == expected,
            f"functions writing the version hint: {sorted(writers)} (expected exactly {sorted(expected)})",
            text="hint-writers", file="src/datashard/metadata_manager.py", line=0)
-    wq = writers
+    wq = {w.qname for w in hint_writers(ctx)}
     for q in ("metadata_manager.MetadataManager.commit", "metadata_manager.MetadataManager.initialize_table"):
         f = ctx.fn(q)
         g = ctx.cfg(f)
